@@ -848,6 +848,10 @@ pub fn run(run: &Arc<Run>) {
         run_rayon(seed, i, &mut l);
     }
     run.absorb(l);
+    if !run.cfg.quick() {
+        // sanitizer lane: data-race / UB interpreter on a threaded reduce, several schedules
+        crate::props::miri_lane::under_miri(run, "c09", Some("0..8"));
+    }
     let nshapes = shapes.lock().unwrap().len();
     run.extra("distinct_merge_tree_shapes_seen_in_threaded_reduce", json!(nshapes));
     run.extra("sample_shapes", json!(shapes.lock().unwrap().iter().take(5).collect::<Vec<_>>()));
